@@ -1,6 +1,7 @@
 """C03 - CAPA/MVCAPA anomalies maximise the total penalised saving."""
 import numpy as np
 
+from vf import history as H
 from vf import instrument as I
 from vf.core import digest
 from vf.gen import gen_data
@@ -63,7 +64,15 @@ def make_recipe(rng, tier, which=None):
     int_dtype = bool(rng.random() < 0.12)
     if int_dtype:
         X = np.round(2 * X)
-    return {"det": spec, "X": X, "data_kind": kind, "int_dtype": int_dtype}
+    elif rng.random() < 0.12 and not (spec["kw"]["collective_saving"] or {}).get("cls", "").startswith("Closure"):
+        # the same signal in a small unit: savings of order unit^2, so only (near-)zero penalties give
+        # anomalies; no absolute tolerance may hide them
+        X = X * float(rng.choice([1e-3, 1e-5, 1e-7]))
+        kind = kind + "*tiny"
+        for k in ("collective_penalty_scale", "point_penalty_scale"):
+            spec["kw"][k] = float(rng.choice([0.0, 0.0, 1e-14, 1e-10]))
+    return {"det": spec, "X": X, "data_kind": kind, "int_dtype": int_dtype, "history": H.pick(rng),
+            "hseed": int(rng.integers(2 ** 31)), "frame": "df" if rng.random() < 0.5 else None}
 
 
 def penalties(det, name, n, p, det_spec=None):
@@ -126,9 +135,13 @@ def exec_case(ctx, r):
     I.drain()
     I.start_trace()
     try:
-        det = build(spec).fit(X)
-        y = det.predict(X)
-        scores = np.asarray(det.transform_scores(X), dtype=float).ravel()
+        # the judged calls may come after a history on the caller's same object (vf/history.py):
+        # Xarg holds exactly X's values and X's shape (penalties depend on the training shape)
+        hist = r.get("history") if r.get("history") in ("same_object", "inplace") else None
+        det, Xarg = H.prepare(build(spec), X, hist, r.get("hseed", 0), m, r.get("frame"))
+        ctx.stat(f"history[{hist}]")
+        y = det.predict(Xarg)
+        scores = np.asarray(det.transform_scores(Xarg), dtype=float).ravel()
     except Exception as ex:
         I.stop_trace()
         ctx.violation(sub, "exception", f"{label}: {type(ex).__name__}: {ex}", r)
@@ -144,7 +157,10 @@ def exec_case(ctx, r):
         ctx.stat("premise_failed_discarded")
         return
     F, back = CM.reference_dp(coll, point, n, m, M, pen_c, pen_p)
-    tol = 1e-9 * (1 + np.abs(F).max())
+    # purely relative (savings scale with the square of the unit of measurement): reference and
+    # implementation add up the same saving / penalty values in another order
+    smax = max((float(np.abs(v).sum()) for v in coll.values()), default=0.0)
+    tol = 1e-9 * n * (np.abs(F).max() + smax) + 1e-300
 
     # trace facts (evidence only): was any start pruned by the implementation?
     batch_sizes = [len(c) for (cls, c) in trace if c.ndim == 2 and c.shape[1] == 2 and len(c) >= 1]
